@@ -100,6 +100,7 @@ def draw_node(draw, depth, local_doms, prog_depth):
         node["mem"] = {"w": PICK(draw, local_doms), "r": PICK(draw, local_doms), "transparent": False}
         if node["mem"]["w"] == node["mem"]["r"]:
             node["mem"]["transparent"] = draw(BOOL)
+        node["mem"]["decoy"] = draw(BOOL)
     ws, outer = draw_wrappers(draw, local_doms)
     node["wrappers"] = ws
     return node
@@ -112,6 +113,9 @@ def trees(draw, prog_depth):
         local = PICK(draw, [["sync", "b"], ["sync", "b"], ["sync", "c"], ["b", "c"]])
         n = draw_node(draw, depth, local, prog_depth)
         n["parent"] = parent
+        # a clock domain defined by this node itself: it shadows the inherited domain of that name for the node and
+        # its descendants ("kind" = which of the three configurations the new domain has)
+        n["own"] = {"name": PICK(draw, ["sync", "b", "c"]), "kind": PICK(draw, ["sync", "b", "c"])} if draw(INT(0, 3)) == 0 else None
         idx = len(nodes)
         nodes.append(n)
         if depth > 0 and len(nodes) < 5:
@@ -130,6 +134,27 @@ def _ancestors(nodes, i):
         out.append(i)
         i = nodes[i]["parent"]
     return out
+
+
+def kind_of(nodes, inst):
+    """Configuration ("sync": synchronous reset, "b": asynchronous reset / generated edge, "c": reset-less) of a domain
+    instance: one of the three top-level ones or "own<i>" defined by node i."""
+    return nodes[int(inst[3:])]["own"]["kind"] if inst.startswith("own") else inst
+
+
+def instances(nodes):
+    return ["sync", "b", "c"] + [f"own{i}" for i, n in enumerate(nodes) if n.get("own")]
+
+
+def resolve(nodes, i, d):
+    """(controls, domain instance) for local domain name d of node i: names are final after every renamer on the way
+    to the root; the nearest definition (the node's own, then its ancestors', then the top level) of that name wins."""
+    ctrl, final = controls_for(nodes, i, d)
+    for a in _ancestors(nodes, i):
+        own = nodes[a].get("own")
+        if own and controls_for(nodes, a, own["name"])[1] == final:
+            return ctrl, f"own{a}"
+    return ctrl, final
 
 
 def controls_for(nodes, i, d):
@@ -162,8 +187,9 @@ def cases(draw, prog_depth, nev):
             mode = draw(INT(0, 2))
         k = draw(INT(0, 11))
         if k <= 3 or (mode == 1 and k <= 7):
-            doms = [d for d in ("sync", "b", "c") if draw(BOOL)] or [PICK(draw, ["sync", "b", "c"])]
-            if mode == 2: doms = ["sync", "b", "c"]
+            insts = instances(nodes)
+            doms = [d for d in insts if draw(BOOL)] or [PICK(draw, insts)]
+            if mode == 2: doms = list(insts)
             evs.append(["clk", doms])
         elif k <= 5:
             i = draw(INT(0, len(nodes) - 1))
@@ -172,7 +198,7 @@ def cases(draw, prog_depth, nev):
         elif k <= 7:
             evs.append(["ctl", draw(INT(0, NCTL - 1)), draw(INT(0, 1))])
         elif k == 8:
-            evs.append(["rst", PICK(draw, ["sync", "b"]), draw(INT(0, 1))])
+            evs.append(["rst", PICK(draw, [d for d in instances(nodes) if kind_of(nodes, d) != "c"]), draw(INT(0, 1))])
         elif k == 9:
             evs.append(["split", draw(INT(0, len(nodes) - 1)), draw(INT(0, 15))])
         else:
@@ -185,10 +211,17 @@ def cases(draw, prog_depth, nev):
 
 # ------------------------------------------------------------------------------------------ building
 class NodeElab(Elaboratable):
-    def __init__(self, node, children, shared):
+    def __init__(self, node, children, shared, b_edge="pos"):
         self.node, self.children, self.shared = node, children, shared
         prog = node["prog"]
         m = Module()
+        self.own_cd = None
+        if node.get("own"):
+            kw = dict(TOP[node["own"]["kind"]])
+            if node["own"]["kind"] == "b":
+                kw["clk_edge"] = b_edge
+            self.own_cd = ClockDomain(node["own"]["name"], **kw)
+            m.domains += self.own_cd
         self.b = build_program(prog, module=m, make_domains=False)
         self.m = m
         sp = node["split"]
@@ -202,6 +235,13 @@ class NodeElab(Elaboratable):
             m.d.comb += self.obs_clk[d].eq(ClockSignal(d))
         self.mem = None
         if node["mem"]:
+            if node["mem"].get("decoy"):
+                # another memory in the same module, declared first, with a write port of its own and nothing else
+                self.decoy = Memory(shape=3, depth=2, init=[5, 6])
+                dwp = self.decoy.write_port(domain=node["mem"]["w"])
+                self.decoy_rp = self.decoy.read_port(domain="comb")
+                m.d.comb += [dwp.addr.eq(self.split_in[0]), dwp.data.eq(self.split_in[1:]), dwp.en.eq(0)]
+                m.submodules.decoy = self.decoy
             self.mem = Memory(shape=4, depth=4, init=[1, 2, 3, 4])
             self.wp = self.mem.write_port(domain=node["mem"]["w"])
             self.rp = self.mem.read_port(domain=node["mem"]["r"], transparent_for=[self.wp] if node["mem"]["transparent"] else [])
@@ -240,9 +280,9 @@ def build(case):
     wrapped = [None] * len(nodes)
     for i in reversed(range(len(nodes))):
         kids = [wrapped[j] for j in range(len(nodes)) if nodes[j]["parent"] == i]
-        e = NodeElab(nodes[i], kids, None)
+        e = NodeElab(nodes[i], kids, None, tree["b_edge"])
         for d in nodes[i]["local"]:
-            if controls_for(nodes, i, d)[1] != "c":
+            if kind_of(nodes, resolve(nodes, i, d)[1]) != "c":
                 e.add_rst_observer(d)
         elabs[i] = e
         wrapped[i] = wrap(e, nodes[i]["wrappers"], ctls)
@@ -255,6 +295,9 @@ def build(case):
         cds[dn] = ClockDomain(dn, **kw)
         top.domains += cds[dn]
     top.submodules.root = wrapped[0]
+    for i, e in enumerate(elabs):
+        if e.own_cd is not None:
+            cds[f"own{i}"] = e.own_cd
     return top, cds, ctls, elabs
 
 
@@ -266,7 +309,8 @@ class NodeRef:
         self.it = R.Interp(prog)
         self.vals, self.fstate = self.it.initial({k: 0 for k in prog["inputs"]})
         self.vals = self.it.settle(self.vals, self.fstate)
-        self.ctrl = {d: controls_for(nodes, i, d) for d in self.node["local"]}
+        self.ctrl = {d: resolve(nodes, i, d) for d in self.node["local"]}
+        self.kind = {inst: kind_of(nodes, inst) for inst in instances(nodes)}
         sp = self.node["split"]
         self.split = sp["init"]
         self.split_in = 0
@@ -302,7 +346,7 @@ def ref_edge(refs, active, ctl, rst):
             ctrl, final = ref.ctrl[d]
             if final not in active:
                 continue
-            dom_rst = rst.get(final, 0) and final != "c"
+            dom_rst = rst.get(final, 0) and ref.kind[final] != "c"
             new, ns = it.run(ref.vals, ref.fstate, d)
             for k, v in new.items():
                 resettable = k not in it.rl
@@ -403,15 +447,18 @@ def body(ctx, case):
     with warnings.catch_warnings():
         warnings.simplefilter("ignore")
         top, cds, ctls, elabs = build(case)
-        if elaborated_before(case, top):
+        # (a renamer renames the ClockDomain object a wrapped module defines, so such a design is elaborated once)
+        if not any(n.get("own") for n in nodes) and elaborated_before(case, top):
             ctx.tally("reuse:design-elaborated-before")
         sim = Simulator(top)
     refs = [NodeRef(nodes, i) for i in range(len(nodes))]
     ref_comb_split(refs)
     ctl = list(case["ctl_init"])
-    rst = {"sync": 0, "b": 0}
-    level = {"sync": 0, "b": 0, "c": 0}
-    active_pol = {"sync": 1, "b": 1 if tree["b_edge"] == "pos" else 0, "c": 1}
+    insts = instances(nodes)
+    kind = {d: kind_of(nodes, d) for d in insts}
+    rst = {d: 0 for d in insts if kind[d] != "c"}
+    level = {d: 0 for d in insts}
+    active_pol = {d: (1 if tree["b_edge"] == "pos" else 0) if kind[d] == "b" else 1 for d in insts}
     stats = dict(coincident=False, reset_then_edge=False, changed=False, async_rise=False, enable_low_edge=False,
                  inserted_reset_edge=False, mem_checked=False)
     fail = []
@@ -484,8 +531,8 @@ def body(ctx, case):
                 d = ev[1]
                 old, rst[d] = rst[d], ev[2]
                 c.set(cds[d].rst, ev[2])
-                if d == "b" and ev[2] and not old:
-                    ref_async_reset(refs, "b")
+                if kind[d] == "b" and ev[2] and not old:
+                    ref_async_reset(refs, d)
                     stats["async_rise"] = True
             elif k == "split":
                 c.set(elabs[ev[1]].split_in, ev[2]); refs[ev[1]].split_in = ev[2]
@@ -518,6 +565,17 @@ def body(ctx, case):
            for i, n in enumerate(nodes)):
         keys.append("c03:memory-under-swapping-or-chained-renamer")
     if tree["b_edge"] == "neg": keys.append("c03:negedge-domain")
+    owners = [i for i, n in enumerate(nodes) if n.get("own")]
+    if owners:
+        keys.append("c03:domain-defined-in-a-submodule")
+        used = {(i, refs[i].ctrl[d][1]) for i in range(len(nodes)) for d in nodes[i]["local"]}
+        if any(inst == f"own{a}" and i != a for a in owners for i, inst in used): keys.append("c03:own-domain-used-by-descendant")
+        if any(inst == f"own{a}" and i == a for a in owners for i, inst in used): keys.append("c03:own-domain-used-by-definer")
+        # a node above a definer, or beside it, still uses the outer domain of the same final name
+        for a in owners:
+            fa = controls_for(nodes, a, nodes[a]["own"]["name"])[1]
+            if any(inst == fa and i != a and a not in _ancestors(nodes, i) for i, inst in used):
+                keys.append("c03:shadowed-name-used-outside-the-definer")
     if any(n["split"]["lo"] != "comb" for n in nodes): keys.append("c03:split-between-domains")
     nontrivial = (stats["coincident"] or stats["reset_then_edge"]) and stats["changed"]
     ctx.note(case, nontrivial, *keys, evals=len(case["events"]))
@@ -533,4 +591,5 @@ REQUIRED = ["c03:coincident", "c03:reset_then_edge", "c03:changed", "c03:async_r
             "c03:inserted_reset_edge", "c03:mem_checked", "c03:wrapper-R", "c03:wrapper-E", "c03:wrapper-D",
             "c03:stacked-wrappers", "c03:nested-wrappers", "c03:memory", "c03:memory-under-enable",
             "c03:single-signal-form", "c03:negedge-domain", "c03:split-between-domains",
-            "c03:memory-under-swapping-or-chained-renamer"]
+            "c03:memory-under-swapping-or-chained-renamer", "c03:domain-defined-in-a-submodule",
+            "c03:own-domain-used-by-descendant", "c03:own-domain-used-by-definer", "c03:shadowed-name-used-outside-the-definer"]
